@@ -44,7 +44,11 @@ const VERSIONS: [&str; 40] = [
 fn gen_pattern(rng: &mut Rng) -> String {
     let v1 = *rng.pick(&VERSIONS);
     let v2 = *rng.pick(&VERSIONS);
-    match rng.below(12) {
+    match rng.below(16) {
+        12 => "foo*".to_string(),
+        13 => "*".to_string(),
+        14 => "fo?*".to_string(),
+        15 => "{foo,bar}*".to_string(),
         0 => format!("foo>={}", v1),
         1 => format!("foo>{}", v1),
         2 => format!("foo<{}", v1),
@@ -65,6 +69,8 @@ fn gen_name(rng: &mut Rng) -> String {
         0 => "foo".to_string(),
         1 => "foo-".to_string(),
         2 => "-1.0".to_string(),
+        // names without '-': their version is empty
+        3 => rng.pick_str(&["foo1", "fooz", "foo2.0", "bar9", "foo1.0nb3", "foo0"]).to_string(),
         _ => {
             let b = if rng.chance(3, 5) { "foo" } else { *rng.pick(&BASES) };
             format!("{}-{}", b, rng.pick(&VERSIONS))
@@ -184,6 +190,9 @@ fn merge_step(
         r2
     );
     if ma && mb {
+        if !a.contains('-') || !b.contains('-') {
+            ctx.probe("both-match-one-without-dash");
+        }
         if a == b {
             ctx.probe("identical-names");
         } else if let (Ok(false), Ok(false)) = (strictly_greater(a, b), strictly_greater(b, a)) {
@@ -459,6 +468,7 @@ impl Property for C06 {
             "none-match",
             "exactly-one-matches",
             "duplicate-delivered-after-beaten",
+            "both-match-one-without-dash",
         ]
     }
 }
